@@ -122,7 +122,7 @@ def ob_sweep(chk, ir):
             for nm in ('(*html/template.Template).ExecuteTemplate', '(*html/template.Template).Execute', '(*text/template.Template).ExecuteTemplate'):
                 H.stub(nm, tmpl)
         try:
-            H, paths, path = sweep.run_route(ir, rt, budget_s=400, extra=extra, max_paths=30000)
+            H, paths, path = sweep.run_route(ir, rt, budget_s=600, extra=extra, max_paths=30000)
         except Unsupported as e:
             chk.obligation(f'markup sinks {rt["path"]}', '-', 'inconclusive', str(e)); continue
         if paths is None: continue
